@@ -18,7 +18,7 @@ func init() {
 			"R03-flagtime — codeBlock.RefUpvalue is a monotone flag that is final only at block completion, so it may be read only by the block-completion functions; R03-closeA — the A operand of every emitted OP_CLOSE and of every SetA patch derives from a local-variable boundary, never from a literal; R03-capture — OP_CLOSURE's capture loop and the compiler's pseudo-instruction list agree (MOVE = find-or-create open up-value at lbase+B, GETUPVAL = share the parent's), and the only writer of RefUpvalue sets it on the block that owns the captured local. " +
 			"NOT decided: that the right block is marked, sharing between sibling closures, per-iteration freshness, setfenv resolution.",
 		Trusted: []string{"register index of a local = its ordinal among active locals (compiler invariant, not checked)"},
-		Rules:   []func(*Ctx){ruleHeadInsertKeepsTheList, ruleHiddenLoopVariablesScope, ruleCallFrameRegs, ruleClose, ruleScopeExitVM, ruleScopeExitCompiler, ruleFlagTime, ruleCloseA, rulePatchPairing, ruleCapture, ruleExitLabelInsideScope, ruleCaptureResolvesLocalFirst, ruleInlineCopies},
+		Rules:   []func(*Ctx){ruleLoadNilRangeOwnedByTheStore, ruleHeadInsertKeepsTheList, ruleHiddenLoopVariablesScope, ruleCallFrameRegs, ruleClose, ruleScopeExitVM, ruleScopeExitCompiler, ruleFlagTime, ruleCloseA, rulePatchPairing, ruleCapture, ruleExitLabelInsideScope, ruleCaptureResolvesLocalFirst, ruleInlineCopies},
 	})
 }
 
